@@ -88,7 +88,7 @@ CLAIMS = {
    text="Proved about the disassembler model: decoding one instruction leaves a proper suffix of the input (progress, never backwards), so the fuel = length recursion is total; for every byte string that decodes, re-encoding the decoded sequence reproduces the identical bytes and every decoded field fits its layout; "
         "table obligation (decide +kernel): every opcode's name and operand class measured on the implementation's decompiler on this run (bytes consumed on two probe patterns + line shape) equals the model's. "
         "Tie: decompile_script under a 4 s watchdog, a 3 GiB address-space cap and a recording Tape (negative / backward reads) on every byte string of length <= 2 and sampled (quick) / all (thorough) length-3 strings compared with the model's listing by per-block digests, random / opcode-biased / mutated strings to 70 KiB, PUSH2 sizes around 2^15 and 2^16; compile(decompile(b)) == b for compiled C11 programs, operand sizes on both sides of 2^7, 2^8, 2^15, 2^16, all lock / witness builder outputs.",
-   note="the listing text itself (names, operand printing) is tied by comparison with the model's `listing`, not by a theorem; recompilation of the listing goes through the unmodelled parser.",
+   note="the listing text itself (names, operand printing) is tied by comparison with the model's `listing`, not by a theorem; recompilation of the listing goes through the unmodelled parser. Known finding K9 (a DEF in the hoisted condition of an IF inside a DEF body compiles to bytes whose listing the compiler rejects) is probed on every run.",
    technique="Lean 4 proof (decoder progress and encode-after-decode identity, decide +kernel table obligations) + watchdog/recording-Tape oracle + exhaustive short-string digest comparison",
    design="§5 C12"),
  'C17': dict(
